@@ -44,7 +44,9 @@ CHAIN_START = ('TpcBegin', 'UBegin')
 CHAIN_END = ('Finish', 'TpcAbort')
 EDITS = ('CreateBlob', 'Rewrite', 'Append', 'ConsumeFile', 'ConsumeFail', 'ModifyP')
 ALL_ACTIONS = EDITS + ('Savepoint', 'Rollback', 'AbortTxn', 'TpcBegin', 'StoreOK', 'StoreFail', 'Vote', 'Finish',
-                       'ConnAbort', 'TpcAbort', 'OtherCommit', 'UBegin', 'UStoreOK', 'UStoreFail', 'Pack')
+                       'ConnAbort', 'TpcAbort', 'OtherCommit', 'UBegin', 'UStoreOK', 'UStoreFail', 'Pack',
+                       'Wrong', 'OtherAbort', 'OtherFinish', 'Late', 'UStoreCopyFail')
+INLINE = ('Wrong', 'Late')          # calls made while a commit is in progress (from inside the Probe's callbacks)
 P_OID = 1
 
 
@@ -94,6 +96,9 @@ class Probe:
         self.fail_at = fail_at
         self.states = states          # phase -> the TLC state the projection taken there is compared with
         self.caps = {}
+        self.inline = {}              # phase -> [(index in the chain, step)]: foreign calls / the other thread's turn
+        self.icaps = {}               # index -> projection after that call
+        self.iout = {}                # index -> (outcome, expected outcome)
 
     def sortKey(self):
         return '~~~~zv-probe'
@@ -101,6 +106,10 @@ class Probe:
     def _at(self, phase):
         if phase not in self.caps:
             self.caps[phase] = self.rp.project(self.states.get(phase) or self.states['any'], 'last')
+            for k, st in self.inline.get(phase, ()):
+                got = self.rp.step(st['name'], st['args'], None, st['state'])
+                self.iout[k] = (got, st['state']['res']['out'])
+                self.icaps[k] = self.rp.project(st['state'], 'last')
         if self.fail_at == phase:
             raise ProbeFailure(phase)
 
@@ -195,6 +204,11 @@ class BlobReplayer:
             raise RuntimeError('set-up: dirty_oids not empty')
 
     def close(self):
+        if getattr(self, '_th', None) is not None:
+            try:
+                self._late()
+            except BaseException:
+                pass
         try:
             for tm in (self.tm, self.tm2, self.tmu, self.tmo):
                 try:
@@ -437,9 +451,9 @@ class BlobReplayer:
         """One action outside a commit chain.  -> outcome string"""
         from ZODB.blob import Blob
         a = action
-        con0 = pre['con']
+        con0 = pre['con'] if pre else None
         self._newb = set(post['con']['newb'])
-        if a in EDITS and _is_clean(con0):
+        if a in EDITS and con0 is not None and _is_clean(con0):
             self.tm.begin()                                   # Touch
             self.handles.clear()
         got = 'ok'
@@ -490,6 +504,13 @@ class BlobReplayer:
                         f.write(self.data((x,)))
                 clock.CLOCK.set(post['clk'])
                 self.tm2.commit()
+            elif a in ('OtherAbort', 'OtherFinish'):
+                self._other_tpc(args[0], args[1], 'abort' if a == 'OtherAbort' else 'finish', post['clk'],
+                                post['aux']['late'] != 'none')
+            elif a == 'Late':
+                self._late()
+            elif a == 'Wrong':
+                return self._wrong(args[0])
             elif a == 'Pack':
                 try:
                     self.db.pack(t=clock.T0 + args[0] + 0.5)
@@ -502,6 +523,126 @@ class BlobReplayer:
             got = _exc_name(ex)
             self.last_exc = repr(ex)[:300]
         return got
+
+    # ------------------------------------------------------------------ foreign calls, the racing thread, faults
+    def _wrong(self, m):
+        """a 2PC call on the storage under test with a transaction that is not the one being committed"""
+        from ZODB.Connection import TransactionMetaData
+        from ZODB.POSException import StorageTransactionError
+        t = TransactionMetaData()
+        oid, z = p64(P_OID), b'\0' * 8
+        try:
+            if m == 'store':
+                self.st.store(oid, z, b'foreign', '', t)
+            elif m == 'storeBlob':
+                self.ext += 1
+                path = os.path.join(self.dir, 'ext', 'w%d' % self.ext)
+                with open(path, 'wb') as f:
+                    f.write(b'foreign')
+                try:
+                    self.st.storeBlob(oid, z, b'foreign', path, '', t)
+                finally:
+                    if os.path.exists(path):
+                        os.remove(path)
+            elif m == 'tpc_vote':
+                self.st.tpc_vote(t)
+            elif m == 'tpc_finish':
+                self.st.tpc_finish(t)
+            elif m == 'tpc_abort':
+                self.st.tpc_abort(t)
+            else:
+                raise RuntimeError(m)
+        except StorageTransactionError:
+            return 'StorageTransactionError'
+        except Exception as ex:
+            self.last_exc = repr(ex)[:300]
+            return _exc_name(ex)
+        return 'ok'
+
+    def _other_tpc(self, b, x, end, tid, late):
+        """The second writer rewrites blob b and commits in a thread of its own; the commit is aborted by another
+        participant whose vote fails (end = 'abort') or finishes.  late: the thread is stopped right after the
+        wrapped storage's tpc_abort / tpc_finish returned (commit lock released) - between the two statements of
+        BlobStorage.tpc_abort / tpc_finish - until the behaviour lets it go on (Late)."""
+        import threading
+        inner = getattr(self.st, '_BlobStorage__storage')
+        meth = 'tpc_abort' if end == 'abort' else 'tpc_finish'
+        orig = getattr(inner, meth)
+        self._go, reached = threading.Event(), threading.Event()
+        self._th_exc = None
+
+        def hooked(*a, **k):
+            r = orig(*a, **k)
+            if late and threading.current_thread() is th:
+                reached.set()
+                self._go.wait(60)
+            return r
+
+        class FailVote:
+            def sortKey(self):
+                return '~~~~zv-failvote'
+
+            def tpc_vote(self, txn):
+                raise ProbeFailure('tpc_vote')
+
+            def __getattr__(self, name):
+                return lambda *a: None
+
+        def run():
+            try:
+                txn = self.tm2.begin()
+                with self.c2.get(self.oid[b]).open('w') as f:
+                    f.write(self.data((x,)))
+                if end == 'abort':
+                    txn.join(FailVote())
+                clock.CLOCK.set(tid)
+                try:
+                    self.tm2.commit()
+                except ProbeFailure:
+                    self.tm2.abort()
+            except BaseException as ex:
+                self._th_exc = ex
+            finally:
+                reached.set()
+        setattr(inner, meth, hooked)
+        self._unhook = lambda: delattr(inner, meth)
+        th = self._th = threading.Thread(target=run, daemon=True)
+        th.start()
+        if not reached.wait(60):
+            raise RuntimeError('the second writer did not get to its %s' % meth)
+        if not late:
+            self._late()
+
+    def _late(self):
+        th = getattr(self, '_th', None)
+        if th is None:
+            raise RuntimeError('Late: no stopped thread')
+        self._go.set()
+        th.join(60)
+        self._th = None
+        self._unhook()
+        if th.is_alive():
+            raise RuntimeError('the second writer did not finish')
+        if self._th_exc is not None:
+            raise self._th_exc
+
+    def _arm_copy_fault(self):
+        """the next raw write to a file under the blob directory fails once (ENOSPC): the blob copy inside undo()"""
+        from .. import faultfs
+        ensure_faultfs()
+        faultfs.reset(self.dir)
+        faultfs.S.fail_filter = lambda e: e['op'] == 'write' and e['file'].startswith('blobs' + os.sep)
+        faultfs.S.fail_at = 0
+        self._armed = True
+
+    def _disarm_fault(self):
+        if getattr(self, '_armed', False):
+            from .. import faultfs
+            self.fault_hits = faultfs.S.failed
+            faultfs.S.fail_at = None
+            faultfs.S.root = None
+            faultfs.S.log = []
+            self._armed = False
 
     def _end_of_txn(self):
         self.sps = []
@@ -517,7 +658,8 @@ class BlobReplayer:
         """steps: the actions of one two-phase commit, TpcBegin|UBegin ... Finish|TpcAbort.
         -> (outcome, {index in steps -> projection})"""
         from ZODB.POSException import ConflictError, UndoError
-        names = [s['name'] for s in steps]
+        allnames = [s['name'] for s in steps]
+        names = [n for n in allnames if n not in INLINE]
         who = 'undo' if names[0] == 'UBegin' else 'c1'
         fail_at = None
         if names[-1] == 'TpcAbort':
@@ -532,6 +674,16 @@ class BlobReplayer:
         states = {phase_of[s['name']]: s['state'] for s in steps if s['name'] in phase_of}
         states['any'] = steps[0]['state']
         probe = Probe(self, fail_at, states)
+        cur = None
+        for k, st in enumerate(steps):
+            if st['name'] in phase_of:
+                cur = phase_of[st['name']]
+            elif st['name'] in INLINE:
+                if cur is None or steps[k - 1]['name'] in ('StoreFail', 'UStoreFail', 'UStoreCopyFail'):
+                    raise RuntimeError('%s after %s: no place to make the call from' % (st['name'], steps[k - 1]['name']))
+                probe.inline.setdefault(cur, []).append((k, st))
+            else:
+                cur = None
         first = steps[0]['state']
         self._newb = set(first['con']['newb']) | set(first['con']['spnew'])
         if who == 'c1':
@@ -544,6 +696,8 @@ class BlobReplayer:
         txn.join(probe)
         clock.CLOCK.set(first['txn']['tid'])
         got = 'ok'
+        if 'UStoreCopyFail' in names:
+            self._arm_copy_fault()
         try:
             tm.commit()
         except ProbeFailure as ex:
@@ -555,13 +709,16 @@ class BlobReplayer:
         except Exception as ex:
             got = _exc_name(ex)
             self.last_exc = repr(ex)[:300]
+        finally:
+            self._disarm_fault()
         if got != 'ok':
             tm.abort()                       # what an application does after a failed commit
         if who == 'c1':
             self._end_of_txn()
         final = self.project(steps[-1]['state'])
-        caps = {}
-        for i, n in enumerate(names):
+        caps = dict(probe.icaps)
+        self.inline_out = probe.iout
+        for i, n in enumerate(allnames):
             if n in CHAIN_END:
                 caps[i] = final
             elif n in phase_of and phase_of[n] in probe.caps:
@@ -571,8 +728,8 @@ class BlobReplayer:
             want = 'probe:' + fail_at
         else:
             for st in steps:
-                if st['name'] in ('StoreFail', 'UStoreFail'):
-                    want = st['state']['res']['out']         # ConflictError | UndoError | KeyError
+                if st['name'] in ('StoreFail', 'UStoreFail', 'UStoreCopyFail'):
+                    want = st['state']['res']['out']         # ConflictError | UndoError | KeyError | OSError
         return got, want, caps
 
 
@@ -605,9 +762,11 @@ PACK_OK = ('ok', 'redundant', 'nothing-freed', 'same-time', 'empty')
 
 
 def consts(flavour, NBlob=2, Atoms=('a', 'b'), MaxLen=2, MaxTid=7, MaxSp=2, KeepOld=False,
-           AbortNeedsVote=True, NonUndoPack=True, SpbPerSerial=True):
+           AbortNeedsVote=True, NonUndoPack=True, SpbPerSerial=True, ForeignAbortCleans=True, LateBookkeeping=True,
+           CopyFailUntracked=True):
     return dict(Flavour=flavour, NBlob=NBlob, Atoms=tuple(Atoms), MaxLen=MaxLen, MaxTid=MaxTid, MaxSp=MaxSp,
-                KeepOld=KeepOld, AbortNeedsVote=AbortNeedsVote, NonUndoPack=NonUndoPack, SpbPerSerial=SpbPerSerial)
+                KeepOld=KeepOld, AbortNeedsVote=AbortNeedsVote, NonUndoPack=NonUndoPack, SpbPerSerial=SpbPerSerial,
+                ForeignAbortCleans=ForeignAbortCleans, LateBookkeeping=LateBookkeeping, CopyFailUntracked=CopyFailUntracked)
 
 
 def tla_consts(c):
@@ -617,7 +776,8 @@ def tla_consts(c):
             'Atoms': '{' + ', '.join('"%s"' % a for a in c['Atoms']) + '}', 'MaxLen': c['MaxLen'],
             'MaxTid': c['MaxTid'], 'MaxSp': c['MaxSp'], 'KeepOld': b(c['KeepOld']),
             'AbortNeedsVote': b(c['AbortNeedsVote']), 'NonUndoPack': b(c['NonUndoPack']),
-            'SpbPerSerial': b(c['SpbPerSerial'])}
+            'SpbPerSerial': b(c['SpbPerSerial']), 'ForeignAbortCleans': b(c.get('ForeignAbortCleans', True)),
+            'LateBookkeeping': b(c.get('LateBookkeeping', True)), 'CopyFailUntracked': b(c.get('CopyFailUntracked', True))}
 
 
 def load_behaviour(beh, atoms=('a',)):
@@ -631,6 +791,15 @@ def load_behaviour(beh, atoms=('a',)):
         out.append({'name': 'Init' if raw in ('Init', None) else canon(raw), 'raw': raw,
                     'args': canon_args(raw, s['args'] or [], atoms), 'state': norm(s['state'])})
     return out
+
+
+def ensure_faultfs():
+    """zv.faultfs substituted into the ZODB modules that do file I/O (pass-through unless a replay arms a fault)"""
+    from .. import faultfs
+    if not faultfs._installed:
+        faultfs.install()
+        faultfs.S.root = None
+        no_fsync()
 
 
 def no_fsync():
@@ -699,6 +868,10 @@ def replay_behaviour(job):
                     mismatch(i + k, 'outcome', ['commit: spec %s, implementation %s %s' % (want, got, getattr(rp, 'last_exc', ''))])
                     break
                 for k, st in enumerate(ch):
+                    io = rp.inline_out.get(k)
+                    if io is not None and io[0] != io[1]:
+                        mismatch(i + k, 'outcome', ['%s: spec %s, implementation %s %s' % (fmt(st), io[1], io[0], getattr(rp, 'last_exc', ''))])
+                        break
                     if k in caps:
                         mm = rp.compare(st['state'], caps[k])
                         if mm:
